@@ -988,7 +988,7 @@ def run(tier):
         explanation=("Panic-site audit plus exit analysis of the input-handling layer (every function of uci.rs, uci_command.rs, main.rs, logger.rs reachable "
                      "from uci::start on the main thread): every bounds Assert and range Index is entailed by dominating length tests that are still valid at the use "
                      "(difference constraints over index variables, slice lengths and position() results; a reassignment between test and use kills the fact); "
-                     "every overflow/division Assert is discharged; explicit panics, unwrap/expect and other may-panic std calls are violations unless proved dead; "
+                     "every overflow/division Assert is discharged; the move text handed to Board::find_move is followed through copies, conversions and closure captures and is only ever compared with the legal moves' notation (never parsed, sliced or indexed); explicit panics, unwrap/expect and other may-panic std calls are violations unless proved dead; "
                      "calls leaving the layer must be in the confirmed boundary table; the command loop exits on end of input, on a read error and on Quit, "
                      "never blocks on anything but the read, and logs-and-continues on both error paths. Decides: no input line (for all token sequences) panics "
                      "or wedges the main thread within this layer; the counters make_move steps are at least 16 bits wide (the premise under which `+ 1` on them was accepted); the FEN alphabet the loader "
